@@ -10,3 +10,11 @@ def run(chk):
                 "notifications settle, and ids are issued afterwards; non-trivial = the load restored a "
                 "non-empty tracklist or a playing/paused track; distinct by op sequence")
     core_check.run_core(chk, "C10", [("restore", 8), ("tracklist", 1)], ["Property_C10.v"])
+    if not chk.replay:
+        # the saved session also has to survive the run command: whatever point of start-up or
+        # shutdown an interrupt hits, the state file afterwards still holds the session (shared
+        # stage of the Actors area, real RootCommand.run)
+        import c18_shared
+
+        n = c18_shared.saved_session_survives_interrupted_start(chk, prop="C10")
+        chk.notes.append(f"real-run stage saved_session_survives_interrupted_start: {n} interrupt points")
